@@ -6,6 +6,12 @@ Spec = {"nodes": [node, ...]}; node index = creation order.  Node kinds:
           "beh": BEH, "side": src-index|None}
   lit    {"k":"lit","v":CONST,"deps":[REF],"scope":[..],"stored":bool}
   src    {"k":"src","deps":[REF],"scope":[..]}            (registry.source; deps = its writer)
+         optional "xdeps":[REF]  extra plain dependencies of the source on arbitrary earlier nodes
+         optional "alias":true   deps = [stored node t]: the source reads the SAME underlying store as
+                                 node t (a second store object over it) and depends on t
+                                 (tests/test_registry.py::test_source_dependent_on_write)
+  call/lit optional "late":rank  registry.add is issued after all nodes were created, in rank order
+                                 (so a source can be registered before an earlier stored node)
   unpack {"k":"unpack","of":ARG,"n":int,"scope":[..]}      (plan.unpack; elements are {"u":i,"j":j})
   gather {"k":"gather","v":ARG,"scope":[..]}              (explicit plan.gather)
 ARG  = {"c":CONST} | {"n":i} | {"u":i,"j":j} | {"L":[ARG]} | {"T":[ARG]} | {"S":[ARG]}
@@ -224,7 +230,8 @@ KW_NAMES = ["x", "y", "z", "a", "b"]
 class Gen:
     """Incremental spec construction inside one @st.composite draw."""
 
-    def __init__(self, draw, registry=False, failures=False, opaque=True, flaky=False):
+    def __init__(self, draw, registry=False, failures=False, opaque=True, flaky=False,
+                 late=False, xdeps=False, alias=False, lits=1):
         self.draw = draw
         self.nodes = []
         self.registry = registry
@@ -234,6 +241,11 @@ class Gen:
         self.refs = []  # REFs usable as arguments / dependencies
         self.hashable_refs = []
         self.writer_locked = set()  # node indices that must get no further successors
+        self.late = late
+        self.xdeps = xdeps
+        self.alias = alias
+        self.lits = lits  # weight of literal nodes / literal chains in add_any
+        self.lit_refs = []
 
     # -- argument structures
     def ref(self, hashable=False):
@@ -294,7 +306,10 @@ class Gen:
             k = 0 if k == 1 else k
         out = []
         for _ in range(k):
-            r = self.ref()
+            if self.lits > 1 and self.lit_refs and self.draw(st.integers(0, 2)) == 0:
+                r = dict(self.draw(st.sampled_from(self.lit_refs)))
+            else:
+                r = self.ref()
             if r not in out:
                 out.append(r)
         return out
@@ -337,7 +352,12 @@ class Gen:
         beh = self.beh()
         node = {"k": "call", "args": args, "kwargs": kwargs, "deps": self.deps(),
                 "scope": self.scope(), "stored": bool(stored), "beh": beh, "side": side}
+        self._maybe_late(node)
         return self.add(node, hashable=True)
+
+    def _maybe_late(self, node):
+        if self.late and node.get("stored") and self.draw(st.integers(0, 3)) == 0:
+            node["late"] = self.draw(st.integers(0, 3))
 
     def add_lit(self):
         d = self.draw
@@ -345,11 +365,65 @@ class Gen:
         v = d(HASHABLE_CONSTS if hashable else CONSTS)
         stored = self.registry and d(st.sampled_from([True] + [False] * 5))
         node = {"k": "lit", "v": v, "deps": self.deps(), "scope": self.scope(), "stored": stored}
-        return self.add(node, hashable=hashable)
+        self._maybe_late(node)
+        i = self.add(node, hashable=hashable)
+        self.lit_refs.append({"n": i})
+        return i
+
+    def add_litchain(self):
+        """Two or three literals chained by plain dependency edges (phase markers in a row)."""
+        d = self.draw
+        first = None
+        for _ in range(d(st.integers(2, 3))):
+            deps = self.deps() if first is None else [{"n": first}] + (self.deps(1) if d(st.integers(0, 3)) == 0 else [])
+            node = {"k": "lit", "v": d(HASHABLE_CONSTS), "deps": [r for n, r in enumerate(deps) if r not in deps[:n]],
+                    "scope": self.scope(), "stored": False}
+            first = self.add(node, hashable=True)
+            self.lit_refs.append({"n": first})
+        return first
+
+    def add_barrier(self):
+        """The phase-marker idiom: calls -> literal [-> literal] -> calls, all plain dependency edges."""
+        d = self.draw
+        ups = []
+        for _ in range(d(st.integers(1, 3))):
+            r = self.ref() if self.refs and d(st.integers(0, 3)) else {"n": self.add_call()}
+            if r not in ups:
+                ups.append(r)
+        last = self.add({"k": "lit", "v": d(HASHABLE_CONSTS), "deps": ups, "scope": self.scope(), "stored": False},
+                        hashable=True)
+        chain = [last]
+        for _ in range(d(st.sampled_from([0, 0, 1, 1, 2]))):
+            last = self.add({"k": "lit", "v": d(HASHABLE_CONSTS), "deps": [{"n": last}], "scope": self.scope(),
+                             "stored": False}, hashable=True)
+            chain.append(last)
+        for i in chain:
+            self.lit_refs.append({"n": i})
+        # the chain is used for ordering only: hide it from later argument choices most of the time
+        if d(st.integers(0, 3)):
+            self.refs = [r for r in self.refs if r.get("n") not in chain]
+            self.hashable_refs = [r for r in self.hashable_refs if r.get("n") not in chain]
+        for _ in range(d(st.integers(1, 2))):
+            c = self.add_call()
+            if {"n": last} not in self.nodes[c]["deps"]:
+                self.nodes[c]["deps"].append({"n": last})
+        return last
 
     def add_src(self):
         d = self.draw
+        if self.alias:
+            targets = [i for i, nd in enumerate(self.nodes)
+                       if nd["k"] in ("call", "lit") and nd.get("stored") and {"n": i} in self.refs]
+            if targets and d(st.integers(0, 3)) == 0:
+                t = d(st.sampled_from(targets))
+                node = {"k": "src", "deps": [{"n": t}], "alias": True, "scope": self.scope()}
+                return self.add(node, hashable=True)
         dependent = bool(self.refs) and d(st.sampled_from([True, False, False]))
+        xdeps = []
+        if self.xdeps and self.refs and not dependent and d(st.integers(0, 1)) == 0:
+            # only for sources without a writer: a writer is not ordered after the extra dependencies, so
+            # it could legitimately leave its source older than them
+            xdeps = self.deps(2)
         if dependent:
             # writer: a side-effecting call whose only successor is the source (docs lesson 4)
             i_src = len(self.nodes) + 1
@@ -361,6 +435,9 @@ class Gen:
             node = {"k": "src", "deps": [{"n": w}], "scope": self.scope()}
         else:
             node = {"k": "src", "deps": [], "scope": self.scope()}
+        xdeps = [r for r in xdeps if r in self.refs]  # the writer just created is not referenceable
+        if xdeps:
+            node["xdeps"] = xdeps
         return self.add(node, hashable=True)
 
     def add_unpack(self):
@@ -392,7 +469,9 @@ class Gen:
 
     def add_any(self):
         d = self.draw
-        kinds = ["call"] * 6 + ["lit", "unpack", "gather"]
+        kinds = ["call"] * 6 + ["lit"] * self.lits + ["unpack", "gather"]
+        if self.lits > 1:
+            kinds += ["litchain", "barrier"]
         if self.registry:
             kinds += ["src", "src"]
         k = d(st.sampled_from(kinds))
@@ -414,8 +493,8 @@ class Gen:
 
 @st.composite
 def plan_specs(draw, max_nodes=8, registry=False, failures=0, opaque=True, flaky=False,
-               min_nodes=1):
-    g = Gen(draw, registry=registry, failures=failures, opaque=opaque, flaky=flaky)
+               min_nodes=1, lits=1):
+    g = Gen(draw, registry=registry, failures=failures, opaque=opaque, flaky=flaky, lits=lits)
     n = draw(st.integers(min_nodes, max_nodes))
     while len(g.nodes) < n:
         g.add_any()
@@ -490,7 +569,16 @@ def arg_preds(node):
 
 
 def dep_preds(node):
-    return [ref_index(r) for r in node.get("deps", [])]
+    return [ref_index(r) for r in node.get("deps", [])] + [ref_index(r) for r in node.get("xdeps", [])]
+
+
+def src_kind(node):
+    """'pure' (content set from outside), 'dep' (written by its writer call deps[0]) or 'alias'."""
+    if node["k"] != "src":
+        return None
+    if node.get("alias"):
+        return "alias"
+    return "dep" if node["deps"] else "pure"
 
 
 def preds(node):
